@@ -27,8 +27,10 @@ check('C01',
       'Bounded symbolic execution of the crate\'s MIR: for every well-formed UTF-8 input of at most N bytes (N=3 quick, 4 thorough; '
       'all bytes symbolic) every path of parse_expression, then expr(), describe() and exec() on an empty context is explored and '
       'z3 decides feasibility of each branch; the assertion "no path ends in a panic, deadlock, abort or step-budget exhaustion" is '
-      'therefore decided for all inputs within the bound, not sampled.',
-      TRUST + ' Outside the bound: inputs longer than N bytes, stack exhaustion (no stack model), non-empty contexts.',
+      'therefore decided for all inputs within the bound, not sampled. Plus number-shaped inputs <= 5 (7) bytes, long literals of 27..31 (8..41) symbolic digits, and repetition families '
+      '(a unit of 1..2 (3) symbolic bytes repeated 4/8/12 times inside one path): call depth growing linearly or step counts growing super-polynomially are replayed natively at 200 000 (64) repetitions; '
+      'a crash (stack overflow) or timeout there is the violation. 7 stack-exhaustion findings are listed in known_findings.json.',
+      TRUST + ' Outside the bound: other long inputs, stack use in bytes (frames are counted; exhaustion is decided by the replay), non-empty contexts.',
       'symbolic execution of rustc MIR with z3 (path exploration, bounded input length)', 'DESIGN.md section 5 C01')
 
 check('C02',
@@ -93,7 +95,7 @@ check('C15',
 check('C17',
       'E2 (Kani/CBMC over the compiled crate with the real rust_decimal, nothing stubbed): for ALL values of i8..i128, u8..u128, bool, and non-finite f32/f64, Value::from(n) denotes exactly n. '
       'E1 (MIR + z3): integer() over a symbolic 96-bit mantissa at scales {0,1,2,5,28} (quick) / 0..28 (thorough): Ok(n) iff the value is the integer n within i64 (validity queries); accessor x variant matrix; From<&str|String|bool|Decimal|Vec> round trips.',
-      TRUST + ' Kani 0.68 / CBMC 6.11 with unwinding assertions. Outside: float() and finite float conversions.',
+      TRUST + ' Kani 0.68 / CBMC 6.11 with unwinding assertions. E1 also: Value::from(v) for every finite f32/f64 v without a fraction below 2^96 (z3 floating-point variable) denotes exactly v. Outside: float(), fractional float conversions.',
       'Kani bounded model checking (all inputs) + symbolic execution of rustc MIR with z3', 'DESIGN.md section 5 C17', engine='mirsym+kani-kernels')
 
 check('C18',
@@ -112,12 +114,12 @@ check('C09',
       'Bounded symbolic execution: (L) literal texts of <= 5 (quick) / 7 (thorough) symbolic bytes over `0-9 . e E` and exponent-sign forms: the evaluated Number must have exactly the digits and scale written (oracle computed from the input bytes in the harness), every non-literal rejected; '
       '(A) `L1 OP L2` and compound-assignment forms with symbolic digits, scales 0..2 (0..4), for + - * % < <= > >= == !=: z3 validity of equality with the integer-arithmetic reference; trailing-zero variants compare equal. '
       'If a binary floating point conversion is reached on the data path (not interpretable by the encoder) a battery of 26 decimal cases with inexact f64 images is replayed natively.',
-      TRUST + ' Decimal::from_str grammar model for inputs < 18 bytes.', 'symbolic execution of rustc MIR with z3; integer-arithmetic oracle', 'DESIGN.md section 5 C09')
+      TRUST + ' Long literals of 17..29 (8..31) symbolic digits with an optional point are covered too. Outside: quotients (rounding division of rust_decimal is not modelled for symbolic operands).', 'symbolic execution of rustc MIR with z3; integer-arithmetic oracle', 'DESIGN.md section 5 C09')
 
 check('C11',
       'Relational bounded symbolic execution: (A) for every accepted input of <= 3 (4) arbitrary UTF-8 bytes and <= 3 (4) structural-alphabet slots, every token boundary (spans observed at Tokenizer::next) x {space, tab, CR, LF} inserted, and every existing whitespace byte doubled / replaced, '
       'is re-parsed under the same path condition; z3 proves the two ASTs equal (strings by content over the shared byte variables). (B) for ~120 template programs over operators with symbolic precedence/associativity every complete subexpression (ranges from the reference parser under the same path condition) '
-      'is wrapped in 1 and 2 pairs of parentheses; the AST must not change.',
+      'is wrapped in 1 and 2 pairs of parentheses; the AST must not change. (C) 24 programs re-laid-out one gap at a time: one / two symbolic whitespace bytes, or no whitespace where the reference tokenizer keeps the tokens apart.',
       TRUST + ' Names that are operator words are excluded by an assumption, as in the property.', 'relational symbolic execution of rustc MIR with z3', 'DESIGN.md section 5 C11')
 
 check('C10',
